@@ -118,10 +118,13 @@ theorem expected_std :
     expected.all (fun e => theorySymbols.contains e.1 || handlerTokens.contains e.1) = true := by decide
 
 /-- the entries whose symbolic samples are *not* read to the very same term by the model and by `Std.applyTheory`
-(evaluated by the driver on every run: must be `[]`; `Term.typeOf` is defined by well-founded recursion, which the
+(evaluated by `#guard` at every build: must be `[]`; `Term.typeOf` is defined by well-founded recursion, which the
 kernel does not unfold, so this table-wide agreement is checked by evaluation, not by `decide`) -/
 def disagreeing : List String :=
   (table.filter (fun e => !(excluded e.1 || checkEntry e))).map (·.1)
+
+-- build-time evaluation (compiled code, not a kernel proof): no entry of the regenerated table disagrees
+#guard disagreeing.isEmpty
 
 /-- the exclusions are real: these tokens are not theory symbols of the standard reader -/
 theorem knownNonStd_not_std :
